@@ -65,18 +65,16 @@ theorem actMoveSrc_ref {neg : Bool} {key : Bytes} :
     exact ⟨pc', n, by simp only [actMoveSrc, hn, h1], h2, h3, h4, hin, hdn⟩
 
 theorem opMove_refines {neg : Bool} {root : Node} {op : Op} {sop : Spec.Op} {path f : Bytes}
-    {ptoks : List Bytes} (sz acc : Nat)
+    {ptoks ftoks : List Bytes} (sz acc : Nat)
     (hr : Inv root) (hc : isDA root = true)
     (hpath : op.path = .ok path) (hfrm : op.frm = .ok f)
     (hk : sop.kind = .move) (hsp : sop.path = path) (hsf : sop.frm = f)
     (hp : Spec.parsePointer path = some ptoks)
-    (hq : ∀ x ∈ ptoks, QK true x = true) :
+    (hq : ∀ x ∈ ptoks, QK true x = true)
+    (hpf : Spec.parsePointer f = some ftoks) :
     OpRefL .move (Spec.applyOp (specOpts neg) sz acc (den root) sop) (opMove neg root op) := by
   have hp' : Spec.parsePointer sop.path = some ptoks := by rw [hsp]; exact hp
-  cases hpf : Spec.parsePointer f with
-  | none => rw [Impl.spec_move_none hk hp' (by rw [hsf]; exact hpf)]; trivial
-  | some ftoks =>
-    cases ftoks with
+  · cases ftoks with
     | nil =>
       rw [Impl.spec_move_root hk hp' (by rw [hsf]; exact hpf)]
       simp [OpRefL, listed]
